@@ -54,7 +54,11 @@ func (self AnalyzedProgram) String() string {
 		globals += "\n\n"
 	}
 
+	// impl blocks are printed among the functions
 	functions := make([]string, 0)
+	for _, impl := range self.ImplBlocks {
+		functions = append(functions, impl.String())
+	}
 	for _, fn := range self.Functions {
 		functions = append(functions, fn.String())
 	}
